@@ -571,7 +571,8 @@ class ProcessingRule(HookableMixin):
             child_url_record = item_session.child_url_record(
                 url_info.url, inline=link_context.inline
             )
-            if not self._fetch_rule.consult_filters(item_session.request.url_info, child_url_record)[0]:
+            # The filters judge the URL of the link, not of this page.
+            if not self._fetch_rule.consult_filters(url_info, child_url_record)[0]:
                 continue
 
             if link_context.inline:
